@@ -300,7 +300,9 @@ PROPS['C11'] = {
                  'RQ.Push.C11_applyPatches_never_panics', 'RQ.Par.C11_par_never_panics', 'RQ.Par.C11_par_driver_never_panics'],
     'extra_modules': ['RQ.Props.C11Push'],
     'verdict': 'C11',
-    'jobs': [{'quick': ['parse', 'seed={seed}', 'n=60000'], 'thorough': ['parse', 'seed={seed}', 'n=1500000', 'huge=4']},
+    # (thorough: the parse cases over four processes)
+    'jobs': [{'quick': None, 'thorough': ['parse', 'seed={seed}%d' % k, 'n=250000', 'huge=4']} for k in range(2, 5)] +
+            [{'quick': ['parse', 'seed={seed}', 'n=60000'], 'thorough': ['parse', 'seed={seed}1', 'n=250000', 'huge=4']},
              {'quick': ['series', 'seed={seed}', 'n=20000'], 'thorough': ['series', 'seed={seed}', 'n=400000']}] +
             push_jobs(['evil=70'], ['evil=70', 'inv=2'], nq=4000, nt=100000),
     'nontrivial': lambda l: True,
